@@ -601,6 +601,34 @@ def _fn(node):
     return '<module>'
 
 
+def rule_r11(chk, prog):
+    chk.rule('C11.R11', 'substitute returns a value of the kind it was '
+             'given: a list for a list (possibly empty when everything was '
+             'deleted), and None only for a single node that was deleted')
+    m = prog.mod('nodes')
+    f = m.func('substitute')
+    from ..cfg import facts_at
+    p0 = params_of(f)[0]
+    n = 0
+    for r in walk_no_nested(f):
+        if not isinstance(r, ast.Return):
+            continue
+        v = r.value
+        if v is None or (isinstance(v, ast.Constant) and v.value is None):
+            n += 1
+            facts = facts_at(f, r)
+            ok = (f'isinstance({p0}, Node)', True) in facts
+            chk.check('C11.R11', 'nodes.substitute', r, ok,
+                      '"return None" is reachable for a list input (it is '
+                      f'not dominated by isinstance({p0}, Node)): when every '
+                      'top-level expression is deleted the caller gets None '
+                      'instead of the empty list - apply_simp\'s assertion '
+                      'fails for simplifications with declarations, and the '
+                      'empty input can never be reached', loc=m.loc(r),
+                      nontrivial=True)
+    chk.floor('C11.R11', '"return None" sites of substitute', n, 1)
+
+
 def run(tier):
     prog = Program()
     chk = Check(
@@ -661,6 +689,7 @@ def run(tier):
               'the task was generated from (cache keyed by the task\'s '
               'base), so the designated identities exist in it (shared '
               'with C05.R4)', sub05)
+    chk.guard(rule_r11, chk, prog)
     extra = None
     if tier == 'thorough':
         from .. import selftest
